@@ -97,6 +97,11 @@ Ok(e) ==
     [] e.op = "mul128" ->
          /\ Agrees(e, e.r, SMul(e, e.k, e.p))
          /\ (Has(e, "r512") => (Residues(e.r512, n) /\ L(n)!ProjEq(e.r, e.r512)))   \* the two implementations agree
+    \* the public conversion to the 128-bit implementation: a twisted two-word curve is always accepted, any
+    \* other curve may be refused (asserted precondition) - but whatever is accepted computes [k]P
+    [] e.op = "conv128" ->
+         /\ ((e.tw /\ e.words = 2) => e.accepted)
+         /\ (e.accepted => Agrees(e, e.r, SMul(e, e.k, e.p)))
     [] OTHER -> FALSE
 
 ModelOk(e) ==
